@@ -237,4 +237,21 @@ CLAIMED['C07'] = dict(category='proof',
         'uniform index shift) are invisible to this property by nature (C02 / C10 cover them).',
    technique='contract-based deductive verification (relational post-condition on two proxy executions of the real region '
              'methods, exact affine normaliser); bounded metamorphic run-time contracts for whole problems')
+CLAIMED['C18'] = dict(category='proof',
+   text='The real semantic checks check_pin, check_duct, check_core_specifications and check_unrodded_regions are executed '
+        'on data dictionaries whose numeric entries are unconstrained real atoms (only the bounds ConfigObj itself '
+        'enforces are assumed); rejection is the SystemExit outcome of a path. On EVERY accepted path the validity predicate '
+        'of the property is proved: positive dimensions, pitch >= diameter, clad <= radius, wire <= gap and a pitch for '
+        'every wire, bundle fits in every duct, walls of non-zero thickness inside the assembly pitch, equal outer ducts, '
+        'non-negative bypass fraction, flowing gap only with gap flow, axial regions of positive height inside the core, no '
+        'overlap, coolant in every region, exactly one pin-bundle region of positive height with the stored bounds, regions '
+        '+ bundle tile the core. Each contract demands at least one accepted and one rejected path.',
+   note=_ASSUME + 'Numeric keys only; 1-2 assemblies, 1-2 ducts, 1-2 axial regions (3 in the thorough tier). The other '
+        'half of the property - every class of bad input ends in a logged error before the sweep, every accepted input '
+        'can be set up and swept - is a BOUNDED run-time contract: 64 single-fault perturbations across the input keys '
+        'and the power file, and 9 valid variants, of a generated two-type core, each classified as rejected / accepted '
+        'and swept / unhandled exception / hang / non-finite result in a subprocess.',
+   technique='contract-based deductive verification of the input checks (proxy execution on unconstrained atoms, path '
+             'enumeration with SystemExit as rejection, z3 linear real arithmetic); bounded run-time contracts for the '
+             'outcome class of whole inputs')
 NOT_APPLICABLE = {f'C{i:02d}': 'check not built yet in this round (see DESIGN.md section 12 build order)' for i in range(1, 21)}
